@@ -456,6 +456,56 @@ func free(c *common.Ctx, r *common.Rand, wal bool, d time.Duration) error {
 	return nil
 }
 
+// quiescent: no concurrency at all - Export and WriteSnapshotTo after every step of a fixed WAL history with a
+// checkpoint, a log restart and transactions that reuse the old generation's frame slots.
+func quiescent(c *common.Ctx, r *common.Rand) error {
+	dir, err := os.MkdirTemp(c.OutDir, "c10q-")
+	if err != nil {
+		return err
+	}
+	defer os.RemoveAll(dir)
+	n, err := lfs.Open(dir, true)
+	if err != nil {
+		return err
+	}
+	defer n.Close()
+	g := &rig{c: c, r: r, node: n, ps: 512, images: map[posT]*lfs.Image{}, hit: make(chan struct{}, 1), resume: make(chan struct{}, 1)}
+	g.h = hist.NewOn(c, r.Fork(), hist.Config{PageSize: 512, AllowWAL: true}, n.Store, n.Exits, "db", nil, 0, false)
+	script := []hist.Step{
+		{Op: "rtx", Writes: map[uint32]uint64{1: 1, 2: 2, 3: 3, 4: 4, 5: 5, 6: 6}, NewSize: 6, ToWAL: true},
+		{Op: "wtx", Frames: [][2]uint64{{2, 12}, {3, 13}, {4, 14}}, NewSize: 6},
+		{Op: "wtx", Frames: [][2]uint64{{5, 25}, {2, 22}}, NewSize: 6},
+		{Op: "appckpt", CkptMode: 2}, // everything copied back, the log restarts
+		{Op: "wtx", Frames: [][2]uint64{{3, 33}}, NewSize: 6}, // lands in the slot page 2 had in the old generation
+		{Op: "wtx", Frames: [][2]uint64{{6, 46}}, NewSize: 6},
+		{Op: "lfsckpt"},
+		{Op: "wtx", Frames: [][2]uint64{{4, 54}, {4, 55}}, NewSize: 5},
+		{Op: "appckpt", CkptMode: 3},
+		{Op: "wtx", Frames: [][2]uint64{{2, 62}}, NewSize: 5},
+	}
+	for i, st := range script {
+		ob := g.h.Exec(st)
+		if ob.Err != "" || ob.Panic != "" {
+			return fmt.Errorf("quiescent step %d (%s): %s%s", i, st.Op, ob.Err, ob.Panic)
+		}
+		g.db = n.Store.DB("db")
+		g.record()
+		for _, kind := range []string{"export", "snapshot"} {
+			res := g.read(kind)
+			rep := map[string]any{"kind": "snapshot-quiescent", "reader": kind, "step": i, "op": st.Op, "steps": script[:i+1]}
+			key := fmt.Sprintf("C10:%s:wal:quiescent:after-%s", kind, st.Op)
+			if res.err != nil {
+				c.Evaluations++
+				c.Violate(key+":error", fmt.Sprintf("%s with nothing else running failed after step %d (%s): %v", kind, i, st.Op, res.err), rep)
+				continue
+			}
+			g.judge(res, key, rep)
+		}
+		c.Distinct(fmt.Sprintf("quiescent:%d:%s", i, st.Op))
+	}
+	return nil
+}
+
 func Run(c *common.Ctx) error {
 	cf := c.Cases("cases_c10", "Require Import LF.Model.Snapshot.\nLocal Open Scope N_scope.", "N * N * N * N", "mismatches_snap")
 	for round := 0; round < c.Pick(1, 3); round++ {
@@ -466,6 +516,9 @@ func Run(c *common.Ctx) error {
 		}
 	}
 	if err := midstream(c, c.Rng.Fork()); err != nil {
+		return err
+	}
+	if err := quiescent(c, c.Rng.Fork()); err != nil {
 		return err
 	}
 	for _, wal := range []bool{true, false} {
